@@ -135,6 +135,7 @@ pub fn preprocess<T: AsRef<Path>, U: AsRef<Path>, V: BuildHasher>(
         include_paths,
         strip_comments,
         ignore_include,
+        0, // resolve_depth
         0, // include_depth
     )
 }
@@ -145,6 +146,7 @@ fn preprocess_inner<T: AsRef<Path>, U: AsRef<Path>, V: BuildHasher>(
     include_paths: &[U],
     strip_comments: bool,
     ignore_include: bool,
+    resolve_depth: usize,
     include_depth: usize,
 ) -> Result<(PreprocessedText, Defines), Error> {
 
@@ -165,7 +167,7 @@ fn preprocess_inner<T: AsRef<Path>, U: AsRef<Path>, V: BuildHasher>(
             include_paths,
             ignore_include,
             strip_comments,
-            0, // resolve_depth
+            resolve_depth,
             include_depth,
         )
     }
@@ -657,6 +659,7 @@ pub fn preprocess_str<T: AsRef<Path>, U: AsRef<Path>, V: BuildHasher>(
                             include_paths,
                             strip_comments,
                             resolve_depth + 1,
+                            include_depth,
                         )? {
                             let p = p.trim().trim_matches('"');
                             PathBuf::from(p)
@@ -696,6 +699,7 @@ pub fn preprocess_str<T: AsRef<Path>, U: AsRef<Path>, V: BuildHasher>(
                         include_paths,
                         strip_comments,
                         false, // ignore_include
+                        resolve_depth,
                         include_depth + 1).map_err(
                         |x| Error::Include {
                             source: Box::new(x),
@@ -716,6 +720,7 @@ pub fn preprocess_str<T: AsRef<Path>, U: AsRef<Path>, V: BuildHasher>(
                     include_paths,
                     strip_comments,
                     resolve_depth + 1,
+                    include_depth,
                 )? {
                     ret.push(&text, origin);
                     defines = new_defines;
@@ -916,6 +921,7 @@ fn resolve_text_macro_usage<T: AsRef<Path>, U: AsRef<Path>>(
     include_paths: &[U],
     strip_comments: bool,
     resolve_depth: usize,
+    include_depth: usize,
 ) -> Result<Option<(String, Option<(PathBuf, Range)>, Defines)>, Error> {
     let (_, ref name, ref args) = x.nodes;
     let id = identifier((&name.nodes.0).into(), &s).unwrap();
@@ -1011,7 +1017,7 @@ fn resolve_text_macro_usage<T: AsRef<Path>, U: AsRef<Path>>(
                 false,
                 strip_comments,
                 resolve_depth,
-                0, // include_depth
+                include_depth,
             )?;
             Ok(Some((
                 String::from(replaced.text()),
